@@ -643,7 +643,14 @@ func (x *Exec) index(e *ast.IndexExpr, st *State) Value {
 		return vSel(sl.get("$arr"), x.addIdx(sl.get("$off").(Term), i))
 	case *types.Pointer:
 		if at, ok := u.Elem().Underlying().(*types.Array); ok {
-			p := x.expr(e.X, st).(Term)
+			pv := x.expr(e.X, st)
+			if pl, isPL := pv.(PtrLocalV); isPL {
+				// pointer to a local array of a caller (an inlined helper was given &buf)
+				i := x.indexTerm(e.Index, st)
+				x.boundsCheck(st, i, x.constOfSort(at.Len(), i.T), x.info.TypeOf(e.Index), e.Pos())
+				return vSel(st.vars[pl.Obj], i)
+			}
+			p := pv.(Term)
 			x.assertSafety(st, "nil", "nil pointer dereference", tNe(p, tNil), e.Pos())
 			arr := vSel(x.getHeap(st, x.boxKey(u.Elem())), p)
 			i := x.indexTerm(e.Index, st)
